@@ -57,6 +57,7 @@ UNITS = {
     "math": {"kind": "so", "src": ["math/unit_math.cpp"], "runner": "math_runner",
              "aux": {"math_runner": {"src": "math/math_runner.cpp", "obj": False, "flags": ["-ffp-contract=off"], "libs": ["-ldl", "-lquadmath", "-lpthread"]}}},
     "c16": {"kind": "exe", "src": ["units/c16_complex.cpp"]},
+    "c17": {"kind": "exe", "src": ["units/c17_scalar.cpp"], "aux": {"ref": {"src": "common/ref.cpp", "flags": ["-ffp-contract=off", "-fno-builtin"]}}, "link": ["ref"]},
     "c02": {"kind": "exe", "src": ["units/c02_fp_basic.cpp"], "aux": {"ref": {"src": "common/ref.cpp", "flags": ["-ffp-contract=off", "-fno-builtin"]}}, "link": ["ref"]},
 }
 ALL22 = "every architecture this CPU executes: 20 x86 (sse2 ... avx512vnni<avx512vbmi2>) + emulated<128>, emulated<256>"
@@ -454,5 +455,27 @@ PROPS = {
                 "monitor); distinct cell = (op, type, arch, lane, direction class of each operand) / (placement, alignment); " + ALL22,
         "assumptions": COMMON_ASSUME + ["finite operands, no intermediate overflow (moduli <= 2^20), results outside the subnormal range"],
         "floor": {"quick": 10**6, "thorough": 10**7},
+    },
+    "C17": {
+        "technique": "runtime monitoring: every scalar overload compared with the C01/C02/C03/C06/C07/C08 reference model and with lane 0 of the batch kernel of the architecture "
+                     "under test; 8-bit operand pairs exhaustive, 16-bit strided/exhaustive",
+        "level_text": "Each scalar overload (add .. pow with integer exponent) is evaluated on all 8-bit operand pairs, a 1/4099 stride (quick) or all (thorough) 16-bit pairs, and "
+                      "boundary-lattice + random operands of the wider and floating types (NaN excluded, exact-cancellation triples for the fma family over-weighted); the result "
+                      "must equal the model bit for bit (fused-or-unfused for the fma family, numerically for min/max of +-0) and lane 0 of the batch form on sse2, avx2, avx512bw "
+                      "and emulated<128>. Scalar elementary functions are compared with the batch lane within an 8-ulp envelope (the per-function bounds are C10/C11's).",
+        "level_note": "The scalar overloads are architecture independent; the four architectures only vary the batch side of the comparison. rotl/rotr on signed types is the "
+                      "open finding F2 (shared with C07). Scalar rotl/rotr are not called with a zero count on 32/64-bit types (shift by the full width is undefined in C++).",
+        "design_ref": "DESIGN.md section 6 C17",
+        "jobs": [
+            {"unit": "c17", "archs": ["sse2", "avx2", "avx512bw", "emu128"]},
+            {"unit": "c17", "variant": "clang", "archs": ["avx2", "avx512bw"], "tiers": ["thorough"], "args": ["--scale", "0.3"]},
+            {"unit": "c17", "variant": "ndebug", "archs": ["sse2", "avx512bw"], "tiers": ["thorough"], "args": ["--scale", "0.3"]},
+            {"unit": "c17", "variant": "asan", "archs": ["sse2", "avx2"], "tiers": ["thorough"], "args": ["--scale", "0.02"],
+             "env": {"ASAN_OPTIONS": "detect_leaks=0", "UBSAN_OPTIONS": "print_stacktrace=0"}},
+        ],
+        "rule": "each evaluation = one scalar overload call compared with the model and with the batch lane; operands: all 2^16 8-bit pairs, strided/all 16-bit pairs, boundary "
+                "lattice and random bit patterns, exact-cancellation fma triples; distinct cell = (op, type, arch, class of each operand)",
+        "assumptions": COMMON_ASSUME + ["non-NaN scalars (as the property states)", "sign, signnz, bitofsign excluded (documented different encodings)"],
+        "floor": {"quick": 10**7, "thorough": 10**8},
     },
 }
